@@ -10,6 +10,10 @@ Two kinds of case (both JSON):
   {"kind": "frame", "pool": [...], "dicts": [[[key, vi], ...], ...], "appends": [[[key, vi], ...], ...],
    "gen": bool}
       DataFrame(dicts) (from a list, or from a generator when gen), then df.append(d) for each of appends.
+  Both kinds take an optional "mapping": the class the records are handed over as - "dict" (default), "ordered"
+  (OrderedDict), "subclass" (plain dict subclass), "missingdict" (dict subclass with __missing__), "counter",
+  "defaultdict" (factory set, so a [] on an absent key would insert), "userdict" (non-dict Mapping).  The harness
+  also records whether every mapping it handed over is unchanged afterwards (same class, same items).
 
 vspec = ["none"] | ["bool", b] | ["int", n] | ["float", hex] | ["str", s] | ["bytes", hex] | ["list", [vspec]] |
         ["tuple", [vspec]] | ["dict", [[k, vspec]]] | ["date", iso] | ["datetime", iso] | ["decimal", s]
@@ -51,7 +55,8 @@ COQ_SHOW = {"row": "c02_row_show", "frame": "c02_frame_show"}
 RULE = ("row cases: field list (0..6 names, duplicates, confusable/Unicode/empty names) x dictionary (sub/superset of the fields, shuffled "
         "insertion order, values of every kind incl. None/NaN/-0.0/nested) x looked-up names present and absent, run through "
         "Row.create_class(fields)(dict) (also with reversed insertion order), DataFrame(rows=[], schema=fields).append(dict), the five views "
-        "and get; frame cases: sequences of 0..6 dictionaries through DataFrame(list or generator) then append(dict); exhaustive over the stated "
+        "and get; frame cases: sequences of 0..6 dictionaries through DataFrame(list or generator) then append(dict); records handed over as dict, OrderedDict, dict subclasses, Counter, defaultdict and UserDict "
+        "(input mapping must stay unchanged); exhaustive over the stated "
         "small scope, then random; a case is non-trivial when some field/column receives a non-None value from a dictionary; distinct by canonical JSON")
 TRUSTED = [
     "C02 model (coq/Model/C02.v): a dictionary is an association list in insertion order with pairwise different keys; PyDict_GetItem / dict.get "
@@ -180,6 +185,51 @@ def _mkdict(items, pool):
     return d
 
 
+MAPPINGS = ["dict", "ordered", "subclass", "missingdict", "counter", "defaultdict", "userdict"]
+
+
+class _PlainSubclass(dict):
+    pass
+
+
+class _MissingDict(dict):
+    """dict subclass whose [] never fails - .get / dict(data) must not be affected by it."""
+
+    def __missing__(self, key):
+        return "MISSING"
+
+
+def _mkrecord(items, pool, mapping="dict"):
+    """The case dictionary as a mapping of the requested class, filled by item assignment in insertion order."""
+    import collections
+
+    if mapping == "dict":
+        return _mkdict(items, pool)
+    if mapping == "ordered":
+        m = collections.OrderedDict()
+    elif mapping == "subclass":
+        m = _PlainSubclass()
+    elif mapping == "missingdict":
+        m = _MissingDict()
+    elif mapping == "counter":
+        m = collections.Counter()
+    elif mapping == "defaultdict":
+        m = collections.defaultdict(lambda: "MISSING")
+    elif mapping == "userdict":
+        m = collections.UserDict()
+    else:
+        raise KeyError(mapping)
+    for k, vi in items:
+        m[k] = pool.objs[vi]
+    if len(m) != len(items):
+        raise ValueError("case dictionary repeats a key")
+    return m
+
+
+def _snap(m):
+    return (type(m), [(k, id(v)) for k, v in m.items()])
+
+
 # ------------------------------------------------------------------ observe
 def _observe_row(case):
     from orso.dataframe import DataFrame
@@ -189,10 +239,14 @@ def _observe_row(case):
     fields = list(case["fields"])
     out = {"jtable": pool.jtable()}
     names = ["row", "row_rev", "append", "as_map", "as_dict", "values", "keys", "as_json"]
-    d = _mkdict(case["dict"], pool)
+    mapping = case.get("mapping", "dict")
+    d = _mkrecord(case["dict"], pool, mapping)
+    before = _snap(d)
+    unchanged = True
     try:
         factory = Row.create_class(fields)
         row = factory(d)
+        unchanged = unchanged and _snap(d) == before
         if not isinstance(row, tuple):
             raise TypeError("Row(dict) is not a tuple")
         out["row"] = [pool.vid(x) for x in tuple(row)]
@@ -200,20 +254,28 @@ def _observe_row(case):
         for n in names:
             out[n] = _exc(e)
         out["get"] = [_exc(e) for _ in case["lookups"]]
+        out["input_unchanged"] = _snap(d) == before
         return out
     try:
-        out["row_rev"] = [pool.vid(x) for x in tuple(Row.create_class(tuple(fields))(_mkdict(case["dict"][::-1], pool)))]
+        d_rev = _mkrecord(case["dict"][::-1], pool, mapping)
+        before_rev = _snap(d_rev)
+        out["row_rev"] = [pool.vid(x) for x in tuple(Row.create_class(tuple(fields))(d_rev))]
+        unchanged = unchanged and _snap(d_rev) == before_rev
     except Exception as e:
         out["row_rev"] = _exc(e)
     try:
         df = DataFrame(rows=[], schema=fields)
-        df.append(_mkdict(case["dict"], pool))
+        d_app = _mkrecord(case["dict"], pool, mapping)
+        before_app = _snap(d_app)
+        df.append(d_app)
+        unchanged = unchanged and _snap(d_app) == before_app
         rows = [[pool.vid(x) for x in tuple(r)] for r in df]
         if df.rowcount != len(rows):
             raise ValueError("rowcount disagrees with iteration")
         out["append"] = rows
     except Exception as e:
         out["append"] = _exc(e)
+    out["input_unchanged"] = unchanged
     try:
         m = row.as_map
         if not isinstance(m, tuple):
@@ -274,12 +336,16 @@ def _observe_frame(case):
 
     pool = _Pool(case["pool"])
     out = {}
-    dicts = [_mkdict(items, pool) for items in case["dicts"]]
+    mapping = case.get("mapping", "dict")
+    dicts = [_mkrecord(items, pool, mapping) for items in case["dicts"]]
+    apps = [_mkrecord(items, pool, mapping) for items in case["appends"]]
+    before = [_snap(m) for m in dicts + apps]
     try:
         df = DataFrame((d for d in dicts) if case.get("gen") else dicts)
     except Exception as e:
         for n in ("columns", "rows", "columns_after", "rows_after", "dicts_after"):
             out[n] = _exc(e)
+        out["input_unchanged"] = [_snap(m) for m in dicts + apps] == before
         return out
 
     def snapshot(tag):
@@ -303,12 +369,14 @@ def _observe_frame(case):
 
     snapshot("")
     try:
-        for items in case["appends"]:
-            df.append(_mkdict(items, pool))
+        for m in apps:
+            df.append(m)
     except Exception as e:
         for n in ("columns_after", "rows_after", "dicts_after"):
             out[n] = _exc(e)
+        out["input_unchanged"] = [_snap(m) for m in dicts + apps] == before
         return out
+    out["input_unchanged"] = [_snap(m) for m in dicts + apps] == before
     snapshot("_after")
     try:
         out["dicts_after"] = [[[_name(k), pool.vid(v)] for k, v in r.as_dict.items()] for r in df]
@@ -338,6 +406,8 @@ def _oracle_row(case, obs):
     for n in ("row", "row_rev", "append", "as_map", "as_dict", "values", "keys", "as_json"):
         if _is_raise(obs[n]):
             return f"{n}: must not raise, raised {obs[n][1]}"
+    if obs.get("input_unchanged") is False:
+        return "the mapping handed to Row(...) / append(...) must be left unchanged (same class, same items, no key gained)"
     if obs["row"] != want:
         return f"Row(dict) must be {want} (value of each field at its position, 0=None when absent), got {obs['row']}"
     if obs["row_rev"] != want:
@@ -391,6 +461,8 @@ def _oracle_frame(case, obs):
     for n in ("columns", "rows", "columns_after", "rows_after", "dicts_after"):
         if _is_raise(obs[n]):
             return f"{n}: must not raise, raised {obs[n][1]}"
+    if obs.get("input_unchanged") is False:
+        return "the mappings handed to DataFrame(...) / append(...) must be left unchanged (same class, same items, no key gained)"
     dicts = [_assoc(items, pool) for items in case["dicts"]]
     cols = [k for k, _ in case["dicts"][0]] if case["dicts"] else []
     if obs["columns"] != cols:
@@ -493,6 +565,7 @@ def nontrivial_key(case, obs):
 
 def classify(case, obs):
     yield case["kind"]
+    yield "mapping:" + case.get("mapping", "dict")
     if case["kind"] == "row":
         f = case["fields"]
         keys = [k for k, _ in case["dict"]]
@@ -534,6 +607,14 @@ def corpus():
     # F-C02-2 (fixed 1ec769f): DataFrame([]) raised StopIteration
     yield {"kind": "frame", "pool": [["int", 1]], "dicts": [], "appends": [], "gen": False}
     yield {"kind": "frame", "pool": [["int", 1]], "dicts": [], "appends": [[["a", 0]]], "gen": True}
+    # F-C02-3 (fixed 9637b46): Row(OrderedDict(b=2, a=1)) over fields (a, b) raised TypeError (compiled extractor takes an exact dict)
+    yield {"kind": "row", "fields": ["a", "b"], "pool": [["int", 1], ["int", 2], ["int", 7]], "dict": [["b", 1], ["a", 0]],
+           "lookups": [["a", 2], ["zz", 2]], "mapping": "ordered"}
+    for mk in MAPPINGS[1:]:
+        yield {"kind": "row", "fields": ["a", "b", "q"], "pool": [["int", 1], ["int", 2], ["int", 7]], "dict": [["b", 1], ["a", 0], ["z", 2]],
+               "lookups": [["q", 2], ["z", None]], "mapping": mk}
+        yield {"kind": "frame", "pool": [["int", 1], ["int", 2], ["int", 3]], "dicts": [[["a", 0], ["b", 1]], [["b", 2]], []],
+               "appends": [[["b", 0], ["q", 1]]], "gen": False, "mapping": mk}
     # empty first dictionary still counts as a row; wrong key order; duplicate field names
     yield {"kind": "frame", "pool": [["int", 1]], "dicts": [[], [["a", 0]]], "appends": [[]], "gen": False}
     yield {"kind": "frame", "pool": [["int", 1], ["int", 2], ["int", 3]],
@@ -556,6 +637,10 @@ def _small_dicts(names):
     return out
 
 
+def mnames_for_label(tier):
+    return _NAMES3[:2] if tier == "quick" else _NAMES3
+
+
 def exhaustive(tier):
     maxf = 2 if tier == "quick" else 3
     fnames = _NAMES3 if tier == "thorough" else _NAMES3[:2]
@@ -576,10 +661,26 @@ def exhaustive(tier):
             yield {"kind": "frame", "pool": _XPOOL, "dicts": [d1], "appends": app, "gen": True}
             for d2 in fd:
                 yield {"kind": "frame", "pool": _XPOOL, "dicts": [d1, d2], "appends": app, "gen": False}
+        # the same records handed over as other mapping classes (smaller scope per class)
+        ab = _small_dicts(_NAMES3[:2])
+        mdicts = ab if tier == "quick" else dicts
+        mnames = _NAMES3[:2] if tier == "quick" else _NAMES3
+        for mk in MAPPINGS[1:]:
+            for n in range(3):
+                for fields in itertools.product(mnames, repeat=n):
+                    for d in mdicts:
+                        yield {"kind": "row", "fields": list(fields), "pool": _XPOOL, "dict": d, "lookups": lookups[2:5], "mapping": mk}
+            yield {"kind": "frame", "pool": _XPOOL, "dicts": [], "appends": app, "gen": False, "mapping": mk}
+            for d1 in ab:
+                yield {"kind": "frame", "pool": _XPOOL, "dicts": [d1], "appends": app, "gen": True, "mapping": mk}
+                for d2 in (ab if tier == "thorough" else ab[:5]):
+                    yield {"kind": "frame", "pool": _XPOOL, "dicts": [d1, d2], "appends": app, "gen": False, "mapping": mk}
 
     return it(), (f"row: all field lists of <= {maxf} names over the 3-name alphabet {{a,b,c}} x all dictionaries over that alphabet "
                   f"(every subset, every insertion order, each value its own or None; 79) x 6 lookups; frame: all sequences of <= 2 "
-                  f"dictionaries over a {len(fnames)}-name alphabet (every subset/order/None pattern), each followed by one append")
+                  f"dictionaries over a {len(fnames)}-name alphabet (every subset/order/None pattern), each followed by one append; "
+                  f"and for each of the mapping classes OrderedDict, dict subclass, dict subclass with __missing__, Counter, defaultdict, UserDict: "
+                  f"all field lists of <= 2 names x all dictionaries over a {len(mnames_for_label(tier))}-name alphabet, and frames of <= 2 dictionaries over {{a,b}}" + (" (second dictionary from 5 of the 13)" if tier == "quick" else ""))
 
 
 _PLAIN = ["a", "b", "c", "d", "e", "f", "g"]
@@ -631,6 +732,10 @@ def _rand_dict(rng, names, npool, bias=None):
     return [[k, rng.randrange(npool)] for k in keys]
 
 
+def _rand_mapping(rng):
+    return "dict" if rng.random() < 0.5 else rng.choice(MAPPINGS[1:])
+
+
 def _random_row(rng):
     names = _rand_names(rng)
     pool = [_rand_value(rng) for _ in range(rng.randint(1, 8))]
@@ -643,7 +748,7 @@ def _random_row(rng):
     for _ in range(rng.randint(1, 5)):
         name = rng.choice(fields) if fields and rng.random() < 0.5 else rng.choice(names + ["zz", "missing", ""])
         lookups.append([name, None if rng.random() < 0.3 else rng.randrange(len(pool))])
-    return {"kind": "row", "fields": fields, "pool": pool, "dict": d, "lookups": lookups}
+    return {"kind": "row", "fields": fields, "pool": pool, "dict": d, "lookups": lookups, "mapping": _rand_mapping(rng)}
 
 
 def _random_frame(rng):
@@ -654,7 +759,7 @@ def _random_frame(rng):
     for j in range(n):
         dicts.append(_rand_dict(rng, names, len(pool), bias=[k for k, _ in dicts[0]] if j else None))
     appends = [_rand_dict(rng, names, len(pool), bias=[k for k, _ in dicts[0]] if dicts else None) for _ in range(rng.choice([0, 0, 1, 2]))]
-    return {"kind": "frame", "pool": pool, "dicts": dicts, "appends": appends, "gen": rng.random() < 0.3}
+    return {"kind": "frame", "pool": pool, "dicts": dicts, "appends": appends, "gen": rng.random() < 0.3, "mapping": _rand_mapping(rng)}
 
 
 def generate(rng, tier):
@@ -684,6 +789,8 @@ def shrink(case):
                     yield dict(case, **{key: l[:i] + [d[:j] + d[j + 1:]] + l[i + 1:]})
         if case.get("gen"):
             yield dict(case, gen=False)
+    if case.get("mapping", "dict") != "dict":
+        yield dict(case, mapping="dict")
     # simplify values
     for i, s in enumerate(case["pool"]):
         if s != ["int", i + 1]:
